@@ -98,6 +98,32 @@ func init() {
 	})
 }
 
+// GobPair has a custom codec that hands the rows to gob as one slice - what a user codec written in a
+// few lines does. gob does not transmit zero fields, so decoding relies on the destination rows being
+// zero (as the stream decoder guarantees for every column).
+type GobPair struct {
+	A int
+	B string
+}
+
+func init() {
+	frame.RegisterOps(func(slice []GobPair) frame.Ops {
+		return frame.Ops{
+			Encode: func(e frame.Encoder, i, j int) error { return e.Encode(slice[i:j]) },
+			Decode: func(d frame.Decoder, i, j int) error {
+				p := slice[i:j:j]
+				if err := d.Decode(&p); err != nil {
+					return err
+				}
+				if len(p) != j-i || (j > i && &p[0] != &slice[i]) {
+					return fmt.Errorf("GobPair: decoded %d rows for %d (or into other memory)", len(p), j-i)
+				}
+				return nil
+			},
+		}
+	})
+}
+
 // ColType describes one column type of the universe.
 type ColType struct {
 	Name    string
@@ -161,6 +187,13 @@ var Universe = []ColType{
 			return map[string]int(nil)
 		}
 		return map[string]int{"k": k, fmt.Sprint(k): 1}
+	}, nil),
+	ct("gobpair", GobPair{}, false, func(k int) interface{} {
+		p := GobPair{A: k % 3}
+		if k%2 == 1 {
+			p.B = fmt.Sprintf("p%d", k%5)
+		}
+		return p
 	}, nil),
 }
 
